@@ -1,5 +1,6 @@
 import Solstat.Check
 import Solstat.Analyze
+import Solstat.Dir
 open Solstat Solstat.Gen
 
 def splitTabs (s : String) : List String := s.splitOn "\t"
@@ -160,6 +161,54 @@ def handleLines (st : St) (fid cat variant impl : String) : Verdict :=
     | none => { kind := "LINES", group := variant, agree := "E", detail := s!"no DET observation for {det}" }
   | _, _ => { kind := "LINES", group := variant, agree := "E", detail := "unknown file or variant" }
 
+def handleDir (cat patterns treeEnc gtab impl : String) : Verdict :=
+  let ps := (patterns.splitOn ",").filter (· != "")
+  let (entries, _) := parseEntries treeEnc.toList []
+  let table := parseGTable gtab
+  let anyGPanic := table.any (fun r => r.2.any (fun kv => kv.2.isNone))
+  let g : List UInt8 → Nat → String → List Nat := fun bytes _ p =>
+    match lookup table (bytesToString bytes) with
+    | some row => (match lookup row p with | some (some ls) => ls | _ => [])
+    | none => []
+  let allNames : List String := match table.head? with
+    | some r => r.2.map (·.1)
+    | none => ps
+  let implMap := if impl == "PANIC" then none else some (parseDirResult impl)
+  let model := analyzeDir g ps entries
+  let render (m : String → List (String × List Nat)) : String :=
+    ",".intercalate ((allNames.filter (fun p => !(m p).isEmpty)).map fun p =>
+      p ++ "=" ++ "|".intercalate ((m p).map fun (f, ls) => f ++ ":" ++ fmtNats ls))
+  let implFn : String → List (String × List Nat) := fun p => match implMap with
+    | some m => (lookup m p).getD []
+    | none => []
+  let (agree, mtext) : String × String :=
+    if anyGPanic then ("na", "per-file analysis panics")
+    else
+      match model, implMap with
+      | .ok m, some _ => (if render m == render implFn then "A" else "D", render m)
+      | .error _, none => ("A", "error")
+      | .ok m, none => ("D", render m)
+      | .error e, some _ => ("D", "error: " ++ e)
+  -- oracle (C03, C16): the union of the per-file results over the eligible files, as multisets
+  let oracle : String × String :=
+    if anyGPanic then ("na", "") else
+    match implMap with
+    | none =>
+      -- a failing run is legitimate only if an eligible file cannot be read
+      (match expectedDir (fun b p => g b 0 p) ps entries "" with
+       | none => ("ok", "")
+       | some _ => ("VIOL", "the run fails although every eligible file is readable"))
+    | some im =>
+      let bad := (allNames ++ im.map (·.1)).filter fun p =>
+        match expectedDir (fun b p => g b 0 p) ps entries p with
+        | some want => sortPairs want != sortPairs (implFn p)
+        | none => true
+      match bad with
+      | [] => ("ok", "")
+      | p :: _ => ("VIOL", s!"pattern {p}: expected {repr (expectedDir (fun b p => g b 0 p) ps entries p)} got {repr (implFn p)}")
+  { kind := "DIR", group := cat, agree := agree, oracle := oracle.1,
+    detail := if agree != "D" && oracle.1 != "VIOL" then "" else s!"{oracle.2}|model={mtext}|impl={impl}" }
+
 def step (st : St) (line : String) : St × Option Verdict :=
   match splitTabs line with
   | ["ROOT", rid, ty, dbg] =>
@@ -190,6 +239,10 @@ def step (st : St) (line : String) : St × Option Verdict :=
     let st := { st with detImpl := truncate 2000 (((fid, det), impl) :: st.detImpl) }
     (st, some (handleDet st fid det impl))
   | ["LINES", fid, cat, variant, _fileNo, impl] => (st, some (handleLines st fid cat variant impl))
+  | ["DIR", cat, patterns, treeEnc, gtab, impl] => (st, some (handleDir cat patterns treeEnc gtab impl))
+  | ["THREADS", calls, mismatches] =>
+    (st, some { kind := "THREADS", agree := if mismatches == "0" then "A" else "D", oracle := if mismatches == "0" then "ok" else "VIOL",
+                detail := s!"calls={calls} mismatches={mismatches}" })
   | [""] => (st, none)
   | f :: _ => (st, some { kind := f, agree := "E", detail := "unknown request" })
   | [] => (st, none)
